@@ -263,20 +263,19 @@ func (l *PeerList) getPeerScore(hostPort string) (*peerScore, uint64, bool) {
 // The new score is calculated, and the peer heap is updated with the new score if the score changes.
 func (l *PeerList) onPeerChange(p *Peer) {
 	l.RLock()
-	ps, psScore, ok := l.getPeerScore(p.hostPort)
-	sc := l.scoreCalculator
+	_, _, ok := l.getPeerScore(p.hostPort)
 	l.RUnlock()
 	if !ok {
 		return
 	}
 
-	newScore := sc.GetScore(ps.Peer)
-	if newScore == psScore {
-		return
-	}
-
+	// The new score is computed and stored in one critical section, with the
+	// calculator that is current in it: a score computed outside the write lock
+	// can be overtaken by a newer one (or by SetStrategy) and then overwrite it.
 	l.Lock()
-	l.updatePeer(ps, newScore)
+	if ps, _, ok := l.getPeerScore(p.hostPort); ok {
+		l.updatePeer(ps, l.scoreCalculator.GetScore(ps.Peer))
+	}
 	l.Unlock()
 }
 
